@@ -16,3 +16,4 @@ define("disjoint_levels(S, U, t)", "forall(l1, 0, t, forall(l2, l1 + 1, t + 1, S
 # ---- acceptance layer (C01 composition, full-mask constraints): sigma is an arbitrary ghost point of the shared domains
 define("fullmask(p)", "forall(k, var_bounds[p, RG_START], var_bounds[p, RG_END], has(triggers[props_dom_indices[k], p], EVENT_MASK_MIN) and has(triggers[props_dom_indices[k], p], EVENT_MASK_MAX))")
 define("onpoint(S, l, p)", "forall(k, var_bounds[p, RG_START], var_bounds[p, RG_END], S[l, props_dom_indices[k], MIN] == sigma[props_dom_indices[k]] and S[l, props_dom_indices[k], MAX] == sigma[props_dom_indices[k]])")
+define("absent(S, t)", "forall(l, 0, t + 1, trig(l) == l and not in_box(S, l))")
